@@ -74,7 +74,12 @@ Classic == { Abs(<<DoS, StepP("child", T_name("", <<"b">>), <<p>>)>>) : p \in {N
                   Abs(<<DoS, StepP("child", T_name("", <<"b">>), <<Rel(<<StepP("preceding-sibling", T_any, <<N(1)>>)>>)>>)>>),
                   Abs(<<DoS, StepP("child", T_any, <<Bin("eq", CountE(Rel(<<StepP("following-sibling", T_any, <<LastE>>)>>)), N(1))>>)>>),
                   Abs(<<DoS, StepP("attribute", T_any, <<N(1)>>)>>), Abs(<<DoS, StepP("child", T_text, <<N(1)>>)>>) }
-PoolC02 == SetToSeq(RelForms \cup FilterForms \cup Classic)
+\* a//b[p]: the step after a mid-path "//" numbers per parent, too (it is NOT a/descendant::b[p])
+MidSlash == { Abs(<<Step("child", T_any), DoS, StepP("child", t, <<p>>)>>) : t \in {T_any, T_name("", <<"b">>)}, p \in {N(1), N(2), LastE, Bin("eq", PosE, LastE), Bin("gt", PosE, N(1))} }
+            \cup { Rel(<<Self, DoS, StepP("child", T_any, <<p>>)>>) : p \in {N(1), LastE} }
+            \cup { Rel(<<Step("child", T_any), DoS, StepP("child", T_any, <<N(1)>>), StepP("child", T_any, <<LastE>>)>>),
+                   Filter(AllB, <<N(1)>>, <<Step("parent", T_node), DoS, StepP("child", T_any, <<N(1)>>)>>) }
+PoolC02 == SetToSeq(RelForms \cup FilterForms \cup Classic \cup MidSlash)
 PoolC02Abs == SetToSeq(AbsForms)
 
 (***************************************************************************)
